@@ -561,6 +561,7 @@ type LoopSpec struct {
 	Visited    string // ghost name of the visited set (map-range loops)
 	Index      string // ghost name for hidden index of range loops
 	Yields     []*Clause
+	Exhausts   []*Clause
 	Modifies   []string
 	Ghosts     []LoopGhost
 }
@@ -984,6 +985,14 @@ func readContractFile(path, pkgPath string) (*ContractFile, error) {
 					return nil, err
 				}
 				ls.Yields = append(ls.Yields, c)
+			case "exhausts":
+				// loop N exhausts expr: assumed when a range-over-func loop ends normally (the
+				// iterator has yielded its whole sequence) -- a listed assumption
+				c, err := parseClause("exhausts")
+				if err != nil {
+					return nil, err
+				}
+				ls.Exhausts = append(ls.Exhausts, c)
 			case "ghost":
 				// loop N ghost name = expr   (evaluated once at loop entry)
 				parts := strings.SplitN(rest, "=", 2)
